@@ -30,7 +30,7 @@ def main():
     results = []
     mismatch = 0
     if patches and verdict in (0, 1):
-        for pf in patches:
+        def one(pf):
             name = os.path.basename(pf)[:-5]
             expect = 'pass' if name.startswith('ok_') else 'fail'
             d = tempfile.mkdtemp(prefix='verif_scratch_')
@@ -38,27 +38,30 @@ def main():
                 scratch = os.path.join(d, 'repo')
                 r = sh(['rsync', '-a', '--exclude', '.git', REPO + '/', scratch + '/'])
                 if r.returncode != 0:
-                    results.append({'patch': name, 'expect': expect, 'result': 'skipped', 'why': 'rsync failed'})
-                    continue
+                    return {'patch': name, 'expect': expect, 'result': 'skipped', 'why': 'rsync failed'}
                 r = sh(['patch', '-p1', '--no-backup-if-mismatch', '-s', '-f', '-i', pf], cwd=scratch)
                 if r.returncode != 0:
-                    results.append({'patch': name, 'expect': expect, 'result': 'skipped', 'why': 'patch does not apply to the current working tree'})
-                    continue
+                    return {'patch': name, 'expect': expect, 'result': 'skipped', 'why': 'patch does not apply to the current working tree'}
                 t1 = time.time()
-                r = sh([govc, '-repo', scratch, '-prop', prop, '-no-evidence'], cwd=V)
+                # (each run keeps its solver scripts in its own directory: the runs are concurrent)
+                r = sh([govc, '-repo', scratch, '-prop', prop, '-no-evidence', '-work', os.path.join(d, 'work')], cwd=V)
                 viol = [l for l in r.stdout.splitlines() if l.startswith('VIOLATION')]
                 got = 'fail' if r.returncode == 1 and viol else ('pass' if r.returncode == 0 else 'error')
                 ok = got == expect
-                if not ok:
-                    mismatch += 1
-                    sys.stderr.write(f'SELFTEST-MISMATCH property={prop} patch={name} expected={expect} got={got}\n')
                 obs = []
                 for l in r.stdout.splitlines():
                     if l.strip().startswith('failed obligation:'):
                         obs.append(l.strip()[len('failed obligation:'):].strip().split('  ')[0])
-                results.append({'patch': name, 'expect': expect, 'result': got, 'ok': ok, 'seconds': round(time.time() - t1, 1), 'failed_obligations': obs[:6]})
+                return {'patch': name, 'expect': expect, 'result': got, 'ok': ok, 'seconds': round(time.time() - t1, 1), 'failed_obligations': obs[:6]}
             finally:
                 shutil.rmtree(d, ignore_errors=True)
+        from concurrent.futures import ThreadPoolExecutor
+        with ThreadPoolExecutor(max_workers=int(os.environ.get('VERIF_SELFTEST_JOBS', '4'))) as ex:
+            results = list(ex.map(one, patches))
+        for r in results:
+            if r.get('ok') is False:
+                mismatch += 1
+                sys.stderr.write(f"SELFTEST-MISMATCH property={prop} patch={r['patch']} expected={r['expect']} got={r['result']}\n")
     # merge into the evidence file
     ev = os.path.join(V, 'evidence', prop + '.json')
     try:
